@@ -22,10 +22,15 @@ TraceInit == /\ tid \in 1..Len(Traces) /\ l = 0
              /\ InitWith({Traces[tid].sc})
 
 \* the logged projection of instr / store / "attribute methods are the originals"
+\* Storage entries are keyed by id(object).  An entry left behind by round 1 whose object is dead can
+\* be overwritten in round 2 by a new object that got the same id, so in round 2 a left-over entry may
+\* be missing from the log; entries of the follow-up's own objects are compared exactly.
 StateMatches(e) ==
   \A i \in 1..Len(S.user) :
      /\ instr'[S.user[i]] = e.si[i]
-     /\ store'[S.user[i]] = ToSet(e.ss[i])
+     /\ IF round' = 1 THEN store'[S.user[i]] = ToSet(e.ss[i])
+        ELSE /\ ToSet(e.ss[i]) \subseteq store'[S.user[i]]
+             /\ {o \in store'[S.user[i]] : FileOf(o) = S.follow} \subseteq ToSet(e.ss[i])
      /\ e.so[i] <=> (instr'[S.user[i]] = 0)
 
 Matches(e) ==
